@@ -22,6 +22,7 @@ import (
 	"github.com/enbility/spine-go/api"
 	"github.com/enbility/spine-go/model"
 	"github.com/enbility/spine-go/spine"
+	"pgregory.net/rapid"
 
 	"verifharness/world"
 )
@@ -496,16 +497,31 @@ type bench struct {
 	pmu   sync.Mutex
 	peers map[string]*world.Peer // by ski
 	order map[string]int
+
+	// which handler of the case a handler object is: written by newBench before anything is
+	// subscribed, read-only afterwards
+	meta map[*handler]hmeta
 }
 
+// handler is an application handler of the harness. Its content is only what an application
+// would configure its handler objects with (cfg); which handler of the case it is - index and
+// scripts - is kept by the bench under the object's pointer. Handlers with the same cfg are
+// therefore distinct objects of one type with deeply equal content (two instances of one use
+// case implementation, configured alike): a subscription is a subscription of the object, so
+// the bus has to tell them apart however alike they look.
 type handler struct {
-	b       *bench
+	b   *bench
+	cfg int
+}
+
+type hmeta struct {
 	idx     int
 	scripts [][]action
 }
 
-func newBench(nHandlers int, scripts [][][]action) *bench {
-	b := &bench{w: world.New(), peers: map[string]*world.Peer{}, order: map[string]int{}}
+// newBench: cfgs[i] is the content of handler i (nil: all alike).
+func newBench(nHandlers int, scripts [][][]action, cfgs []int) *bench {
+	b := &bench{w: world.New(), peers: map[string]*world.Peer{}, order: map[string]int{}, meta: map[*handler]hmeta{}}
 	// the world's own application-level log has been subscribed by world.New()
 	s := world.Stamp()
 	b.rec.addOp(busOp{H: worldLog, Kind: kSub, Start: s, End: world.Stamp(), Ctx: "setup"})
@@ -516,7 +532,12 @@ func newBench(nHandlers int, scripts [][][]action) *bench {
 	b.lf.SetData(b.fn, descriptionList(0))
 	b.cf = b.w.AddLocalFeature(le, world.FeatSpec{Type: model.FeatureTypeTypeDeviceConfiguration, Role: model.RoleTypeClient})
 	for i := 0; i < nHandlers; i++ {
-		b.hs = append(b.hs, &handler{b: b, idx: i, scripts: scripts[i]})
+		h := &handler{b: b}
+		if cfgs != nil {
+			h.cfg = cfgs[i]
+		}
+		b.meta[h] = hmeta{idx: i, scripts: scripts[i]}
+		b.hs = append(b.hs, h)
 	}
 	return b
 }
@@ -638,7 +659,12 @@ func deviceKey(change api.ElementChangeType, ski string) string {
 
 func (h *handler) HandleEvent(p api.EventPayload) {
 	b := h.b
-	d := delivery{H: h.idx, At: world.Stamp(), Gid: gid()}
+	at := world.Stamp()
+	m, ok := b.meta[h]
+	if !ok {
+		panic("harness: HandleEvent on a handler object the bench does not know")
+	}
+	d := delivery{H: m.idx, At: at, Gid: gid()}
 	var ev *evt
 	d.Key, ev = identify(p)
 	pick := 0
@@ -656,11 +682,11 @@ func (h *handler) HandleEvent(p api.EventPayload) {
 		}
 	}
 	b.rec.addDelivery(d)
-	if len(h.scripts) == 0 {
+	if len(m.scripts) == 0 {
 		return
 	}
-	ctx := fmt.Sprintf("handler h%d", h.idx)
-	for _, a := range h.scripts[pick%len(h.scripts)] {
+	ctx := fmt.Sprintf("handler h%d", m.idx)
+	for _, a := range m.scripts[pick%len(m.scripts)] {
 		switch a.Kind {
 		case "sub":
 			b.subscribe(a.H, ctx)
@@ -751,6 +777,28 @@ func subscribedEver(ops []busOp) int {
 		}
 	}
 	return len(seen)
+}
+
+// genCfgs draws the content of the handler objects: few values, so that most cases with several
+// handlers hold objects that are alike (also all alike, also all different).
+func genCfgs(t *rapid.T, nh int) []int {
+	cfgs := make([]int, nh)
+	for h := range cfgs {
+		cfgs[h] = rapid.SampledFrom([]int{0, 0, 1, 2}).Draw(t, fmt.Sprintf("h%dcfg", h))
+	}
+	return cfgs
+}
+
+// alike: two handler objects of the case have deeply equal content.
+func alike(cfgs []int) bool {
+	seen := map[int]bool{}
+	for _, c := range cfgs {
+		if seen[c] {
+			return true
+		}
+		seen[c] = true
+	}
+	return false
 }
 
 func showScripts(s [][][]action) [][]string {
